@@ -17,9 +17,11 @@ PROPERTY = "C11"
 FUNCTIONS = ["redun.job_array.JobArrayer.__init__", "JobArrayer.add_job", "JobArrayer.get_stale_descrs",
              "JobArrayer.submit_pending_jobs", "JobArrayer._monitor_stale_jobs", "redun.job_array.JobDescription"]
 ASSUMPTIONS = [
+    "the adder sleeps once (where the clock jumps) and the submit callback blocks (I/O): at those points any thread may run next "
+    "without counting as a pre-emption",
     "S7 ThreadLab: CPython switches threads only between bytecode instructions; the lab yields at every source line of "
     "redun/job_array.py and at every instruction of the lines that update num_pending; one adder thread and the monitor "
-    "thread; at most 2 (quick) / 3 (thorough) pre-emptions",
+    "thread; at most 1 (quick) / 2-3 (thorough) pre-emptions",
     "threading.Lock / Event of the arrayer replaced by cooperative stand-ins with the same contract; JobArrayer.start (thread "
     "management) neutralised; time.time replaced by a clock the harness advances; jobs are light stand-ins with task name and options",
     "<= 4 (quick) / 5 (thorough) jobs over two task names and two option values; after the activity two more monitor rounds "
@@ -79,7 +81,7 @@ def run_case(pick, kinds_i, sizes_i, max_switches, advance_at):
 
     def submit(jobs):
         batches.append(list(jobs))
-        lab.yield_point()  # the executor's submit callback takes time: other threads may run meanwhile
+        lab.pause()  # the executor's submit callback blocks in I/O: other threads may run meanwhile (not a pre-emption)
 
     mn, mx = SIZES[sizes_i]
     arr = JA.JobArrayer(submit, errors.append, submit_interval=0.01, stale_time=1.0, min_array_size=mn, max_array_size=mx)
@@ -96,7 +98,8 @@ def run_case(pick, kinds_i, sizes_i, max_switches, advance_at):
     def adder():
         for i, j in enumerate(jobs):
             if i == advance_at:
-                clock.now += 5.0  # everything added so far becomes stale
+                clock.now += 5.0  # time passes (the adder sleeps): everything added so far becomes stale
+                lab.pause()
             arr.add_job(j)
         if advance_at == njobs:
             clock.now += 5.0
@@ -156,8 +159,8 @@ def c11_interleavings(k: int) -> bool:
     return guard(body, k=k)
 
 
-_Q = [((0, 0, 0), 0, 1, 2), ((0, 0, 0), 1, 1, 1), ((0, 1, 0), 0, 1, 1), ((0, 2, 0), 3, 1, 2), ((0, 0, 0, 0), 1, 1, 3),
-      ((0, 0, 0), 2, 1, 3), ((0, 0), 0, 2, 1), ((0, 2), 0, 2, 1), ((0, 0, 2), 0, 1, 0)]
+_Q = [((0, 0, 0, 0), 0, 0, 3), ((0, 0, 0, 0), 0, 1, 3), ((0, 0, 0, 0, 0), 1, 0, 4), ((0, 0, 0), 0, 1, 2), ((0, 0, 0), 1, 1, 1), ((0, 1, 0), 0, 1, 1), ((0, 2, 0), 3, 1, 2), ((0, 0, 0, 0), 1, 1, 3),
+      ((0, 0, 0), 2, 1, 3), ((0, 0, 2), 0, 1, 0)]
 _T = [(k, s, 1, a) for k in ((0, 0, 0), (0, 1, 0), (0, 2, 0), (0, 0, 0, 0), (0, 2, 0, 2)) for s in range(len(SIZES)) for a in (0, 1, 2, 3)] \
     + [(k, s, 2, a) for k in ((0, 0), (0, 2), (0, 1)) for s in (0, 1) for a in (0, 1, 2)] + [((0, 0, 0), 1, 2, 2), ((0, 0), 0, 3, 1)]
 CONDITIONS = [
